@@ -364,6 +364,24 @@ def check_shared_class_state(ctx, classes, rule='EFF-7'):
                 ctx.violation(rule, '%s.%s is shared by every %s' % (cname, name, cname), where(m, node),
                               '%s stores a value computed from this object into the container %s created in the class body (line %d): every other %s sees it, so a result depends on the objects used before'
                               % (up(node)[:70], name, decl.lineno, cname), 'shared-class-state:%s.%s' % (cname, name))
+        # a default argument is evaluated once, when the function is defined: a mutable object built there (a call, a list / dict / set display) and kept on the
+        # instance is one object shared by every instance constructed without that argument
+        for mname, m in ci.methods.items():
+            me = m.params[0] if m.params else None
+            a_ = m.node.args
+            pos_ = list(a_.posonlyargs) + list(a_.args)
+            pairs_ = list(zip(pos_[len(pos_) - len(a_.defaults):], a_.defaults)) + [(k_, d_) for k_, d_ in zip(a_.kwonlyargs, a_.kw_defaults) if d_ is not None]
+            for arg_, dflt_ in pairs_:
+                if not isinstance(dflt_, (ast.Call, ast.List, ast.Dict, ast.Set, ast.ListComp, ast.DictComp, ast.SetComp)):
+                    continue
+                if isinstance(dflt_, ast.Call) and (chain(dflt_.func) or '').split('.')[-1] in ('tuple', 'frozenset', 'float', 'int', 'str', 'bool', 'Unit', 'Quantity') :
+                    continue
+                kept = [st for t, v, st in stores(m.node) if isinstance(t, ast.Attribute) and isinstance(t.value, ast.Name) and t.value.id == me and isinstance(v, ast.Name) and v.id == arg_.arg]
+                for st in kept:
+                    n_sites += 1
+                    ctx.violation(rule, '%s.%s keeps its default argument %s' % (cname, mname, arg_.arg), where(m, st),
+                                  'the default of %s is %s, built once when the function is defined; %s keeps it on the instance: every %s made without that argument shares one object, and what one of '
+                                  'them stores in it the others see' % (arg_.arg, up(dflt_)[:40], up(st)[:60], cname), 'mutable-default:%s.%s.%s' % (cname, mname, arg_.arg))
         if not n_sites:
             ctx.ok(rule, '%s keeps no instance data in class-level containers' % cname, where(next(iter(ci.methods.values()))) if ci.methods else ci.module.path,
                    'class-level containers: %s; none is filled through self with values computed from the instance' % (sorted(shared) or 'none'))
